@@ -52,6 +52,16 @@ def tsig(x, depth=0):
     return (type(x).__name__, repr(x))
 
 
+def key_order(x, depth=0):
+    if depth > 40:
+        return None
+    if isinstance(x, dict):
+        return [(k, key_order(v, depth + 1)) for k, v in x.items()]
+    if isinstance(x, (list, tuple)):
+        return [key_order(v, depth + 1) for v in x]
+    return None
+
+
 def containers(x, acc: Set[int], depth=0):
     if depth > 40:
         return
@@ -149,7 +159,7 @@ def _call_function(tp, d, nc, ov):
 PT_FLAGS = ["any", "collections", "dataclasses", "enums", "tuple"]
 
 
-def complete(x, kw, depth=0):
+def complete(x, kw, depth=0, native=False):
     """complete passed-through leaves the way json.dumps(default=serialization_default()) would
     (NamedTuples, which json would emit as arrays without calling `default`, go through the
     default serialization too)"""
@@ -158,12 +168,16 @@ def complete(x, kw, depth=0):
     if x is None or type(x) in (bool, int, float, str):
         return x
     if type(x) is list or type(x) is tuple:
-        return [complete(v, kw, depth + 1) for v in x]
+        return [complete(v, kw, depth + 1, native) for v in x]
     if type(x) is dict:
         # a passed-through named type can be a key too (Dict[SomeEnum, ...] with enums=True): the property
         # leaves named types untouched wherever they are, the default serialization completes them
-        return {(k if type(k) is str else complete(k, kw, depth + 1)): complete(v, kw, depth + 1) for k, v in x.items()}
-    return complete(serialization_default(**kw)(x), kw, depth + 1)
+        return {(k if type(k) is str else complete(k, kw, depth + 1, native)): complete(v, kw, depth + 1, native) for k, v in x.items()}
+    if native and dataclasses.is_dataclass(x) and not isinstance(x, type):
+        # dataclasses=True: what a JSON library with native dataclass support (orjson, the documented use of dataclasses=True) emits:
+        # every field under its name, in declaration order
+        return {f.name: complete(getattr(x, f.name), kw, depth + 1, native) for f in dataclasses.fields(x) if not f.name.startswith("_")}
+    return complete(serialization_default(**kw)(x), kw, depth + 1, native)
 
 
 def run_ser(case: dc.Case, rz, label, spec, st, tier, ctx0):
@@ -225,8 +239,9 @@ def run_ser(case: dc.Case, rz, label, spec, st, tier, ctx0):
                         ok = out == ref and tsig(out) == tsig(ref)
                         got = out
                     else:
-                        got = complete(out, {})
-                        ok = got == ref_j
+                        got = complete(out, {}, native=bool(kw["pass_through"].dataclasses and not kw["pass_through"].any))  # with any=True whatever sits at an Any position is the JSON library's business
+                        # same JSON text: equal, and the keys of every object in the same order
+                        ok = got == ref_j and key_order(got) == key_order(ref_j)
                 except Exception as e:
                     ok, got = False, f"completion failed: {e!r}"
                 if not ok:
